@@ -133,8 +133,8 @@ type cfg struct {
 	wrongArityPct        int
 	maxTail              int
 	classW               map[string]int
-	fitPct               int // probability that a slot is drawn only among classes its flags accept
-	flagPct              int // probability of each Allow* flag
+	fitPct               int    // probability that a slot is drawn only among classes its flags accept
+	flagPct              int    // probability of each Allow* flag
 	flagPcts             [4]int // per-flag override: null, unk, dyn, marked
 	fitNoErr             bool   // "fit" means: no argument error (unknown / dynamic short-circuits are welcome)
 	typeW, implW         map[string]int
